@@ -33,7 +33,8 @@ STEPS = 25
 
 def small_scene():
     return st.one_of(S.scene_layered(max_layers=2, n_t=(3, 12), n_ceilos=(1, 2)),
-                     S.scene_degenerate(kinds=['single_hit', 'all_nan', 'identical', 'two_heights']))
+                     S.scene_degenerate(kinds=['single_hit', 'all_nan', 'identical', 'two_heights', 'two_heights_30',
+                                                'identical30']))
 
 
 FRAME_VARIANTS = ['canonical', 'extra', 'dtypes', 'index', 'extra+dtypes']
